@@ -47,6 +47,12 @@ FunctionalFormsAgree == [][/\ (last' = "compact" => tbvars' = CompactF(tbvars))
 \* the closed form of the range macro-step is the composition of the single steps, in every reachable state
 RangeFormAgrees == \A lo \in 0..MaxIdx : \A hi \in (lo + 1)..(MaxIdx + 1) :
                       RangeOK(tbvars, lo, hi) => SetRangeF(tbvars, lo, hi) = SetFold(tbvars, lo, hi)
+\* the words Compact drops are exactly a run of words whose every position is set: the form TailBitmapProof.tla (TLAPS,
+\* W = 64, unbounded positions) uses for Compact, "drop k words for a k with RunFull(offset, k, bits)"
+RunFullAgrees    == LET k == LeadingFull(offset, nw, bits) IN
+                       /\ k \in 0..nw
+                       /\ \A j \in offset..(offset + W * k - 1) : j \in bits
+                       /\ Compacted(offset, nw, bits) = <<offset + k * W, nw - k, IF k = 0 THEN bits ELSE {x \in bits : x >= offset + k * W}>>
 OffsetMonotone   == [][offset' >= offset]_vars
 CompactKeepsGets == [][last' = "compact" =>
                         \A j \in 0..(offset + W * nw - 1) : Get1Val(j)' = Get1Val(j)]_vars
